@@ -1564,7 +1564,7 @@ def run(ctx):
     # decomposable character x every subset of the glyphs its normalization can depend on, on fonts that LACK a character
     # of the text but map its full canonical decomposition
     env = L.Env(shim)
-    L.promote_norm_run(ctx, shim, env, dis, ctx.budget(40, 300), [L.judge_conservation], "norm-run")
+    L.promote_norm_run(ctx, shim, env, dis, ctx.budget(40, 300), [L.judge_conservation_p], "norm-run")
     L.search(ctx, shim, env, ctx.rng("lattice"), ("decomposable",),
              lambda c, S, text, tag: (not all(x in S for x in text) and all(L.renderable(x, S) for x in text))
              or L.decomposed_twin(env, c, S, text, tag) is not None,
@@ -1581,7 +1581,7 @@ def replay(ctx, rp):
     if rp.get("stream") == L.STREAM:
         return L.replay(shim, rp, [L.judge_conservation])
     if rp.get("stream") == L.PROMOTED:
-        return L.replay_promoted(shim, rp, [L.judge_conservation])
+        return L.replay_promoted(shim, rp, [L.judge_conservation_p])
     if rp.get("stream") in ("reorder", "reorder-leading", "promoted-norm-run") and "request2" in rp:
         o = vlib.run_groups(shim, [[rp["font_line"], rp["request"], rp["request2"]]], nproc=1)[0]
         print("order 1:", o[1]); print("order 2:", o[2])
